@@ -480,7 +480,9 @@ def run_seed(args: dict, sandbox: str) -> dict:
             fl = []  # fault-free configuration: D vs D
     a = rng.stream(seed, "args")
     spec = {"hashseed": seed % 4, "doc": doc, "faults": fl, "meta": a.choice(["none", "none", "poetry"]),
-            "config": docgen.random_config(a, doc)}
+            "config": docgen.random_config(a, doc),
+            # two idempotent post-hooks (real subprocesses run in the project directory) in a quarter of the runs
+            "post_hooks": a.choice([[], [], [], ["touch hook1.txt", "touch hook2.txt"]])}
     res = run_spec({"spec": spec}, sandbox)
     if not res.get("violations"):
         res.pop("spec", None)
@@ -495,7 +497,7 @@ def _generate(doc: dict, spec: dict, sandbox: str, tag: str) -> dict:
     dp = os.path.join(base, "doc.json")
     with open(dp, "w") as f:
         json.dump(doc, f)
-    cfg = genrun.write_config(base, {"post_hooks": [], **(spec.get("config") or {})})
+    cfg = genrun.write_config(base, {"post_hooks": list(spec.get("post_hooks") or []), **(spec.get("config") or {})})
     out = os.path.join(base, "gen", f"pkg_{tag}")
     os.makedirs(os.path.dirname(out))
     res = genrun.run_cli(["generate", "--path", dp, "--config", cfg, "--meta", spec.get("meta", "none"), "--output-path", out])
@@ -737,6 +739,10 @@ def shrink_candidates(spec: dict) -> list[dict]:
     if any((spec.get("config") or {}).values()):
         s = copy.deepcopy(spec)
         s["config"] = {}
+        out.append(s)
+    if spec.get("post_hooks"):
+        s = copy.deepcopy(spec)
+        s["post_hooks"] = []
         out.append(s)
     protect = lambda p: p in (("info",), ("info", "title"), ("info", "version"), ("openapi",), ("paths",))  # noqa: E731
     for d in driver.tree_candidates(spec["doc"], limit=250, protect=protect):
